@@ -465,3 +465,11 @@ mod tests {
         Ok(())
     }
 }
+
+#[cfg(feature = "verif-hooks")]
+impl GenericSingleObjectWriter {
+    /// Read-only view of the reusable internal buffer, for external runtime monitors.
+    pub fn verif_buffer(&self) -> &[u8] {
+        &self.buffer
+    }
+}
